@@ -6,7 +6,10 @@ harness/detsim.py; the harness chooses the order of task exits, notification del
 occasional killController).  Notifications travel through the REAL RxPY pipelines of the Controller
 (observe_on(controllerPool), filter): the controller pool is a queue whose items run when the harness says so.  The
 handler of a finished-notification may be executed in three separately scheduled parts - before / under / after
-Controller.comp_lock (ops finA, finB, finC) - between which scheduler passes and other events happen.
+Controller.comp_lock (ops finA, finB, finC) - between which scheduler passes and other events happen.  The external
+stage-completion hook (hooks/status.py::IsStageComplete / Controller.completionCheck) is an event as well: op
+["complete", k] makes it answer True for stage k and ticks the poll timer of _observe_completionCheck, the real
+pipeline and closure run.  The stand-in of a RepeatingEngine ends only after notify_all_producers_finished or kill().
 Model: lean/St4sd/Model/Ctrl.lean + CtrlSplit.lean via drv-c01.  Theorems: lean/St4sd/Props/C01.lean.
 
 A. per static case: a generated FlowIR template (1-3 stages) is replicated by the real loader, exit scripts are drawn
@@ -37,12 +40,14 @@ CLASSIFIERS = {}
 
 RULE = ("case = A. (FlowIR template of 2-8 components over 1-3 stages - random, or built around a motif: replicated "
         "producer with an aggregating consumer in the same or a later stage / shutdown chain across stages / "
-        "observer with several subjects - with at most one replicated chain, aggregators (also without replicated "
+        "observer with several subjects / repeating consumers of producers of EARLIER stages (only, or next to a "
+        "same-stage subject without inputs) - with at most one replicated chain (2-3, rarely 10-11 replicas), aggregators (also without replicated "
         "inputs), repeating observers, shutdownOn/restartHookOn/maxRestarts drawn at random, continue-on-error on "
         "some stages; exit script per component (with real engines also launches that raise); the whole stage loop is "
         "run: random schedule of task exits / postmortem deliveries / finished deliveries - atomic or split in the three "
-        "parts before / under / after comp_lock - / scheduler passes / ticks / rare kill, under one of 6 "
-        "delivery biases, stage transitions when a stage completes) or B. (DoWhile package: loop of 1-4 iterations of "
+        "parts before / under / after comp_lock - / scheduler passes / ticks / rare kill / in 40% of the cases the "
+        "stage-completion hook answering True at a random moment, under one of 6 "
+        "delivery biases, stage transitions when a stage completes; a sample is run again at the end of the process) or B. (DoWhile package: loop of 1-4 iterations of "
         "1-2 components in stage 0/1, consumers of the looped components outside the loop in the same or the next stage, "
         "same kinds of schedule).  Non-trivial = A: the workflow has >= 3 components after "
         "replication, >= 2 components were launched and at least one scheduler pass ran inside a window in which "
@@ -266,7 +271,11 @@ def setup(ctx):
         "engines are stand-ins (a task exit is an event chosen by the harness, Engine.restart is reduced to its "
         "counters: maxRestarts, restartHookOn, SubmissionFailed cap) or - a quarter of the cases - the real Engine with a "
         "scripted task generator and a restart hook that always prepares the restart (hook answers are C12's business); "
-        "repeating components always use the stand-in",
+        "repeating components always use the stand-in, which - like the real RepeatingEngine - ends only after "
+        "ComponentState told it notify_all_producers_finished() or after kill()",
+        "the external stage-completion hook answers True at most once per stage, at a moment chosen by the harness, and "
+        "its closure runs atomically with respect to scheduler passes and the three parts of finishedCheck (it holds "
+        "comp_lock); the set of components it hands to _stopComponents is iterated in reference order",
         "references are ':ref' references (no file has to exist for stage-in to succeed)",
         "DoWhile cases are checked by the oracle only (the Lean model has no loops)",
     ]
